@@ -166,11 +166,13 @@ def _flatten_named(prefix, v, out):
             _flatten_named(prefix, x, out)
 
 
-def depot_tour_reward_unit(u, file, qual, clsname, tags=("C03",), static=False):
-    """reward = -(closed tour depot -> a_0 ... a_{T-1} -> depot) for `_get_reward` of CVRP-like envs."""
+def depot_tour_reward_unit(u, file, qual, clsname, tags=("C03",), static=False, make_td=None):
+    """reward = -(closed tour depot -> a_0 ... a_{T-1} -> depot) for `_get_reward` of CVRP-like envs.
+    make_td(u, B, N): the whole state TensorDict with ARBITRARY bookkeeping fields (the reward is a function of the instance and
+    the actions only: get_reward is also called on a fresh / re-batched state); default: the instance coordinates alone."""
     B, N, T = u.dims("B N T")
     u.requires(T >= 2)
-    td = u.td(B, locs=((B, N + 1, 2), "f"))
+    td = make_td(u, B, N) if make_td is not None else u.td(B, locs=((B, N + 1, 2), "f"))
     act = u.tensor("actions", (B, T), "i")
     u.requires(u.forall((B, T), lambda b, t: AND(act.at(b, t) >= 0, act.at(b, t) <= N)))
     env = u.obj(file, clsname)
@@ -199,13 +201,13 @@ def depot_tour_reward_unit(u, file, qual, clsname, tags=("C03",), static=False):
     u.canary("reward.open-path", r.at(b) == -open_len.at(b), tags=tags)
 
 
-def depot_tour_reward_rowlocal(u, file, qual, clsname, static=False):
+def depot_tour_reward_rowlocal(u, file, qual, clsname, static=False, make_td=None):
     N, T = u.dims("N T")
     u.requires(T >= 2)
     env = u.obj(file, clsname)
 
     def mk_in(u, B):
-        return {"td": u.td(B, locs=((B, N + 1, 2), "f")), "actions": u.tensor("actions", (B, T), "i")}
+        return {"td": make_td(u, B, N) if make_td is not None else u.td(B, locs=((B, N + 1, 2), "f")), "actions": u.tensor("actions", (B, T), "i")}
 
     def req(u, ins, B):
         a = ins["actions"]
